@@ -14,6 +14,12 @@ impl StatusCode {
     pub const SERVICE_UNAVAILABLE: StatusCode = StatusCode(503);
     pub const GATEWAY_TIMEOUT: StatusCode = StatusCode(504);
     pub fn as_u16(&self) -> (r: u16) ensures r == self.0 { self.0 }
+    // A-http-30b: the status classes are the hundreds
+    pub fn is_informational(&self) -> (r: bool) ensures r == (100 <= self.0 && self.0 < 200) { 100 <= self.0 && self.0 < 200 }
+    pub fn is_success(&self) -> (r: bool) ensures r == (200 <= self.0 && self.0 < 300) { 200 <= self.0 && self.0 < 300 }
+    pub fn is_redirection(&self) -> (r: bool) ensures r == (300 <= self.0 && self.0 < 400) { 300 <= self.0 && self.0 < 400 }
+    pub fn is_client_error(&self) -> (r: bool) ensures r == (400 <= self.0 && self.0 < 500) { 400 <= self.0 && self.0 < 500 }
+    pub fn is_server_error(&self) -> (r: bool) ensures r == (500 <= self.0 && self.0 < 600) { 500 <= self.0 && self.0 < 600 }
 }
 // A-http-31: Method / Version are enumerations; only the members tonic names are distinguished
 #[derive(PartialEq, Eq, Clone, Copy, Debug, Structural)]
